@@ -122,6 +122,9 @@ pub fn cmd_emit(args: &[String]) {
         "tame" => Profile::tame(),
         _ => Profile::rich(),
     };
+    // --prior K: every K-th generated case is generated over the tree that a previous generation of ANOTHER document
+    // (a function of seed and case id, same configuration) left in the same directory; the expected tree is unchanged
+    let prior_every: usize = arg_val(args, "--prior").and_then(|s| s.parse().ok()).unwrap_or(0);
     let mut ctx = Ctx::new(&format!("emit{}", shard));
     let mut cases = std::io::BufWriter::new(std::fs::File::create(format!("{}/ecases_{}.txt", out, shard)).unwrap());
     let mut imp = std::io::BufWriter::new(std::fs::File::create(format!("{}/eimpl_{}.obs", out, shard)).unwrap());
@@ -148,6 +151,20 @@ pub fn cmd_emit(args: &[String]) {
         writeln!(cases, "{} {} {}", id, cfg_sexp(cfg), spec_sexp(spec)).unwrap();
         let sp = ctx.spec_file(spec);
         let d = ctx.fresh_dir();
+        let mut over_previous = false;
+        if prior_every > 0 && *id < 900000 && id % prior_every == 0 {
+            let mut prng = Rng::new(seed.wrapping_mul(31).wrapping_add(*id as u64).wrapping_add(77));
+            let prior = gen_spec(&mut prng, &Profile::tame());
+            let psp = ctx.spec_file(&prior);
+            let po = run_cli(&psp, &cfg.name, &d, cfg.examples, &cfg.derives, &[], None);
+            let _ = std::fs::remove_file(&psp);
+            if po.code == Some(0) {
+                over_previous = true;
+            } else {
+                let _ = std::fs::remove_dir_all(&d);
+                std::fs::create_dir_all(&d).unwrap();
+            }
+        }
         let o = run_cli(&sp, &cfg.name, &d, cfg.examples, &cfg.derives, &[], None);
         if o.code == Some(0) {
             writeln!(imp, "{} R ok", id).unwrap();
@@ -156,7 +173,8 @@ pub fn cmd_emit(args: &[String]) {
             if let Ok(oa) = catch(|| crate::hirobs::parse_openapi(spec)) {
                 if let Ok(Ok(h)) = catch(|| libninja::extractor::extract_spec(&oa)) {
                     for fd in crate::eoracle::judge_files(spec, cfg, &h, &tree) {
-                        writeln!(orc, "{}\t{}\t{}\t{}", id, fd.prop, fd.class, fd.msg.replace('\n', "\\n")).unwrap();
+                        let note = if over_previous { " [generated over the tree of a previous generation of another document in the same directory]" } else { "" };
+                        writeln!(orc, "{}\t{}\t{}\t{}{}", id, fd.prop, fd.class, fd.msg.replace('\n', "\\n"), note).unwrap();
                     }
                 }
             }
@@ -178,6 +196,9 @@ pub fn cmd_emit(args: &[String]) {
         }
         if cfg.examples {
             fs.push("examples");
+        }
+        if over_previous {
+            fs.push("over_previous_generation");
         }
         writeln!(feat, "{}\t{}", id, fs.join(",")).unwrap();
         let _ = std::fs::remove_dir_all(&d);
